@@ -137,6 +137,8 @@ type FuncVerifier struct {
 	curPos    token.Pos
 	abstracted map[string]bool
 	nEntry int
+	regionStart token.Pos
+	regionInit map[types.Object]string
 	siteOcc map[string]int
 	pendingAsserts []string
 }
@@ -394,9 +396,19 @@ func (fv *FuncVerifier) merge(states []*State) *State {
 			}
 		}
 		if !inAll {
-			// variable declared in a branch only: out of scope afterwards
-			delete(out.vars, k)
-			continue
+			if fv.regionStart.IsValid() && k.Pos() < fv.regionStart {
+				// region mode: a local of the enclosing function first touched in one branch keeps its
+				// (arbitrary) region-entry value in the others
+				for _, s := range live {
+					if _, ok := s.vars[k]; !ok {
+						s.vars[k] = fv.initialVar(k)
+					}
+				}
+			} else {
+				// variable declared in a branch only: out of scope afterwards
+				delete(out.vars, k)
+				continue
+			}
 		}
 		srt := fv.eng.sc.sortOf(k.Type())
 		if fv.boxed[k] {
@@ -595,4 +607,24 @@ func (fv *FuncVerifier) allocRef(st *State) string {
 	fv.assume(st, "(= "+na+" (+ "+st.alloc+" 1))")
 	st.alloc = na
 	return r
+}
+
+// initialVar gives the (single) arbitrary region-entry value of a local declared outside the region.
+func (fv *FuncVerifier) initialVar(o types.Object) string {
+	if t, ok := fv.entry.vars[o]; ok {
+		return t
+	}
+	if fv.regionInit == nil {
+		fv.regionInit = map[types.Object]string{}
+	}
+	if t, ok := fv.regionInit[o]; ok {
+		return t
+	}
+	n := fv.fresh(o.Name(), fv.eng.sc.sortOf(o.Type()))
+	for _, c := range fv.eng.sc.typeInv(n, o.Type(), 0) {
+		fv.assumeGlobal(c)
+	}
+	fv.regionInit[o] = n
+	fv.entry.vars[o] = n
+	return n
 }
